@@ -201,6 +201,22 @@ impl<R: IntoRole + RequiredParameters + Default> Parameters<R> {
                 return Err(Error::LackParameterId(R::into_role(), id).into());
             }
         }
+        // RFC 9000 section 18.2: a preferred address must carry a non-empty connection id, and
+        // a server that itself uses a zero-length connection id must not provide one at all.
+        if let Some(preferred_address) =
+            parameters.get::<PreferredAddress>(ParameterId::PreferredAddress)
+        {
+            let server_cid_is_empty = parameters
+                .get::<ConnectionId>(ParameterId::InitialSourceConnectionId)
+                .is_some_and(|cid| cid.is_empty());
+            if preferred_address.connection_id().is_empty() || server_cid_is_empty {
+                return Err(Error::IncompleteValue(
+                    ParameterId::PreferredAddress,
+                    "preferred address with a zero-length connection id".to_owned(),
+                )
+                .into());
+            }
+        }
         Ok(parameters)
     }
 }
